@@ -115,7 +115,7 @@ func lifeAlpha(o AlphaOpts) func(sc *Scenario, v *View) []Action {
 		out = append(out, o.BindOps...)
 		for _, ps := range o.ParamChanges {
 			p := ps
-			if v.Params.MaxRequestTimeout == p.MaxTimeout && v.Params.ServiceFeeTax.Equal(sdk.MustNewDecFromStr(p.Tax)) && v.Params.SlashFraction.Equal(sdk.MustNewDecFromStr(p.Slash)) {
+			if v.Params.MaxRequestTimeout == p.MaxTimeout && v.Params.ServiceFeeTax.Equal(sdk.MustNewDecFromStr(p.Tax)) && v.Params.SlashFraction.Equal(sdk.MustNewDecFromStr(p.Slash)) && v.Params.MinDeposit.AmountOf(denom).Int64() == p.MinDeposit {
 				continue // already in force
 			}
 			out = append(out, Action{Name: "gov(" + p.Name + ")", Kind: "gov", Tmpl: -1, Signer: XX,
@@ -301,6 +301,7 @@ func bindOpsAuth() []Action {
 		if s == "O1" {
 			ops = append(ops, actEnable("a", "P1", s, 30))
 		}
+		ops = append(ops, actUpdate("a", "P1", s, 0, "", 0)) // an update that changes nothing still needs the owner's signature
 	}
 	return ops
 }
@@ -365,7 +366,7 @@ func scMsvc(ps ParamSet, depth, blocks, msgs int) *Scenario {
 		Funds: []Funding{{O1, 100}, {O2, 100}, {C1, 60}, {C2, 10}}, Extra: append(append([]sdk.AccAddress{}, allAccounts...), MSP),
 		Setup:     []Action{install, actDefine("a", "AU")},
 		Templates: []Template{tMsvc, tMsvcLow, tOne, tMsvcSuper},
-		Alpha: lifeAlpha(AlphaOpts{RespKinds: []string{"ok"}, BindOps: []Action{
+		Alpha: lifeAlpha(AlphaOpts{RespKinds: []string{"ok"}, CtxOps: []string{"pause", "start", "kill"}, BindOps: []Action{
 			actBind("ms", "P1", "O1", 10, "p1", 1), actBind("a", "P1", "O1", 10, "p1", 1), actBind("ms", "MSP", "O1", 10, "p1", 1)}}),
 		Depth: depth, MaxBlocks: blocks, MaxMsgs: msgs,
 	}
@@ -398,5 +399,25 @@ func scFeesSelf(ps ParamSet, depth, blocks, msgs int) *Scenario {
 		Depth:     depth, MaxBlocks: blocks, MaxMsgs: msgs,
 	}
 	sc.Setup = append(sc.Setup, sc.actCall(0), actE())
+	return sc
+}
+
+// scTwoServices: provider P1 serves two services with different pricing.
+var tOneAb = Template{Name: "oneab", Consumer: "C1", Service: "ab", Providers: []string{"P1"}, Cap: 9, Timeout: 1, Repeated: true, Freq: 1, Total: 2}
+
+func scTwoServices(ps ParamSet, o AlphaOpts, depth, blocks, msgs int) *Scenario {
+	sc := scLife(ps, []Template{tOne, tOneAb}, o, depth, blocks, msgs)
+	sc.Name = "S-PRICE(two services)"
+	sc.Funds = lifeFunds(40, 5)
+	sc.Setup = []Action{actDefine("a", "AU"), actDefine("ab", "AU"),
+		actBind("a", "P1", "O1", 10, "p2v", 1), actBind("ab", "P1", "O1", 10, "p5", 1), actBind("a", "P2", "O2", 10, "p1", 1)}
+	return sc
+}
+
+// scModReentrant: S-MOD where the other module reacts inside its callbacks by calling back into the keeper.
+func scModReentrant(ps ParamSet, tmpls []Template, o AlphaOpts, depth, blocks, msgs int) *Scenario {
+	sc := scMod(ps, tmpls, o, depth, blocks, msgs)
+	sc.Name = "S-MOD(reentrant)"
+	sc.Rig.Reentrant = true
 	return sc
 }
